@@ -7,6 +7,8 @@ MAP = {"optics": ["C01", "C02", "C03", "C04"], "pipeseq": ["C05", "C06", "C07", 
        "fork": ["C09", "C10"], "iter": ["C14", "C15"], "duct": ["C16"], "pure": ["C17", "C10"], "skiplist": ["C18"],
        "seqadt": ["C19"], "pipen": ["C20"], "pipetime": ["C06", "C11", "C13"]}
 root = sys.argv[1]
+for _g in ("pipeseq", "pipetime", "unbound", "fork", "optics", "iter", "skiplist"):
+    MAP["round2-" + _g] = MAP[_g]
 groups = sys.argv[2:] or list(MAP)
 def sh(c, **k):
     p = subprocess.run(c, shell=True, stdout=subprocess.PIPE, stderr=subprocess.STDOUT, text=True, **k)
